@@ -71,7 +71,12 @@ class RepeatingEventBase(EventBase):
             return float(value or 0)
 
         elapsed = context.get('elapsedTime')
-        if elapsed is not None:
+        if context.get('periodDuration') is not None:
+            # a Period of a multi-period stream: its events are timed from
+            # the start of the Period
+            begin = 0.0
+            end = seconds(context['periodDuration'])
+        elif elapsed is not None:
             end = seconds(elapsed)
             begin = max(0.0, end - seconds(context.get('timeShiftBufferDepth')))
         else:
